@@ -5,6 +5,7 @@ import XModel.Acyclic
 import XModel.ManagerC13
 import XModel.ManagerFn
 import XModel.ManagerC01b
+import XModel.ManagerFnHist
 /-!
 # C01 — expression-defined locations always equal their definition on current data
 
@@ -124,6 +125,26 @@ theorem C01_tests_sound (s : MState) (hi : MInv s) (p : Path) :
     (∀ π, validSchedule s.idx (chainR p) π = true → acyclicFrom s.idx (startOf s.idx (chainR p)) = true →
       ValidSched (gOf s.idx) (findTaskids s.idx (chainR p)) π) :=
   ⟨scopeB_sound s hi p, fun π h1 h2 => validSchedule_sound s.idx (chainR p) π h1 h2⟩
+
+/-- **histories with function tasks**: every call of the history is an assignment (value, expression, in-place) in
+    the mixed scope `ScopeG` under a legal schedule, a `register` of a task with a sound declaration under a fresh id,
+    an `unregister`, or a maintenance call; a task registered while its lines do not yet hold is tracked as *unsettled*
+    until an assignment triggers it (`unsettledAfter`), and when none is left unsettled at the end every definition and
+    every line of every function body holds in the final state -/
+theorem C01_histories_function_tasks (sched : Sched) (s : MState) (cs : List Call) (hi : MInv s) (hc : ConsistentF s)
+    (hg : GoodRunF sched s cs) : ConsistentF (applyAll sched s cs) ∧ MInv (applyAll sched s cs) :=
+  goodRunF_consistentF sched s cs hi hc hg
+
+/-- the same with the unsettled tasks listed: everything not in `unsettledAfter` holds after ANY good history -/
+theorem C01_histories_function_tasks_unsettled (sched : Sched) (cs : List Call) (U : List Path) (s : MState)
+    (hi : MInv s) (hc : ConsistentU U s) (hg : GoodRunU sched s cs) :
+    ConsistentU (unsettledAfter sched U s cs) (applyAll sched s cs) ∧ MInv (applyAll sched s cs) :=
+  goodRunU_consistentU sched cs U s hi hc hg
+
+/-- … and decided: a history the driver accepts line by line -/
+theorem C01_function_histories_decided (sched : Sched) (cs : List Call) (s : MState) (hi : MInv s) (hc : ConsistentF s)
+    (h : goodRunFB sched s cs = true) : ConsistentF (applyAll sched s cs) :=
+  C01F_decided sched cs s hi hc h
 
 /-! ### non-vacuity: a concrete history inside the theorem (a chain of two definitions, an update of a
     source, a maintenance call, a definition overwritten by a value) -/
